@@ -1,9 +1,13 @@
 """C07 - Commissioning terminates and assigns distinct, permitted short addresses.
 
 proved  : the binary search _find_next against the abstract search contract (recursion through its own contract,
-          termination by variant)
-bounded : the whole Commissioning sequence driven natively against the executable population contract for all
-          small populations (never counted as proved)
+          termination by variant); the whole Commissioning sequence by the loop rule (three nested loop
+          specifications) for ANY population, ANY answers and ANY permitted list, through one arbitrary address K:
+          K is programmed at most once, only if permitted and not found in use; every PROGRAM uses the address taken from
+          the list and is verified, an unconfirmed verification raises; a dry run writes nothing; every found unit is
+          withdrawn; prologue, restart and final TERMINATE have the prescribed shape
+bounded : what the units END UP HOLDING (participants distinct, non-participants untouched) - the whole sequence driven
+          natively against the executable population contract for all small populations (never counted as proved)
 undecided: termination of the restart loop under 'clashing units eventually draw different values'"""
 import itertools
 import time
@@ -85,6 +89,7 @@ def units(tier):
             ctx.prove("search-address-is-high", ((h.trace[0].param << 16) | (h.trace[1].param << 8) | h.trace[2].param) == high)
     U.append(Unit("C07/_find_next", "C07", None, None, use=USE + [FIND], width=72, kind="custom", runner=r_find,
                   max_paths=10000))
+    U.extend(commissioning_units())
     return U
 
 
@@ -211,6 +216,367 @@ def _oracle_chunk(chunk):
     return len(chunk), out
 
 
+# ============================================================================ Commissioning: deductive part (loop rule)
+# The whole sequence is verified for an ARBITRARY population and an arbitrary permitted list, through
+#   * the contract of _find_next (proved above) over the abstract search view,
+#   * an abstract view of the Python list `available_addresses` that tracks ONE arbitrary short address K
+#     (skolem constant): is K still in the list?  is the list non-empty?  (assumed contract of list.pop(0) /
+#     remove / in / truth for a list of pairwise distinct ints - the property's "permitted set"),
+#   * a bus that answers every query arbitrarily (so every clause below holds whatever the gear does), with ghost
+#     counters for the clauses of the property.
+COMM = "dali.sequences:Commissioning"
+from pyvc.values import AbstractValue           # noqa: E402
+from pyvc.loops import LoopSpec                 # noqa: E402
+from pyvc.spec import is_instance               # noqa: E402
+from dali import address as A                   # noqa: E402
+from dali import sequences as SEQ               # noqa: E402
+
+
+class AddrList(AbstractValue):
+    """`available_addresses` seen through the skolem address K: inK (K is in the list), nonempty.
+    Assumed: the list holds pairwise distinct ints 0..63 (a set of permitted short addresses), so removing / popping K
+    once leaves no K behind."""
+
+    def __init__(self, bus, in_k, nonempty):
+        self.bus = bus
+        self.in_k = in_k
+        self.nonempty = nonempty
+
+    def _renew_nonempty(self):
+        c = self.bus.ctx
+        self.nonempty = c.fresh_bool("list_nonempty")
+        c.assume(Implies(self.in_k, self.nonempty))
+
+    def py_contains(self, interp, item):
+        c = self.bus.ctx
+        other = c.fresh_bool("member_other")
+        c.assume(Implies(other, self.nonempty))
+        return ite(item == self.bus.K, self.in_k, other)
+
+    def py_truth(self, interp):
+        return self.nonempty
+
+    def py_list(self, interp):
+        return AddrList(self.bus, self.in_k, self.nonempty)
+
+    def py_getattr(self, interp, name):
+        c = self.bus.ctx
+        if name == "remove":
+            def remove(a):
+                if interp.test(a == self.bus.K):
+                    if not interp.test(self.in_k):
+                        interp.py_raise(ValueError, "list.remove(x): x not in list")
+                    self.in_k = False
+                self._renew_nonempty()
+            return remove
+        if name == "pop":
+            def pop(i=-1):
+                if not (isinstance(i, int) and i == 0):
+                    raise sym.Unsupported("AddrList.pop(%r)" % (i,))
+                if not interp.test(self.nonempty):
+                    interp.py_raise(IndexError, "pop from empty list")
+                h = c.fresh_int("popped", 0, 63)
+                if interp.test(h == self.bus.K):
+                    c.assume(self.in_k)         # what is popped was in the list
+                    self.in_k = False
+                self.bus.popped.append(h)
+                self._renew_nonempty()
+                return h
+            return pop
+        raise sym.Unsupported("list.%s on the abstract address list" % name)
+
+
+class CommBus:
+    """bus for the deductive part: arbitrary answers, ghost bookkeeping for the property's clauses"""
+
+    def __init__(self, ctx, interp):
+        self.ctx, self.interp = ctx, interp
+        self.K = ctx.int("K", 0, 63)
+        self.inuse_kind = ctx.int("K_present_answer", 0, 2)       # answer to QUERY CONTROL GEAR PRESENT(K): none/yes/collision
+        self.u = AbstractSearch(ctx)
+        self.handed = 0             # PROGRAM SHORT ADDRESS(K) so far
+        self.writes = 0             # DTR0 / SET SHORT ADDRESS / PROGRAM SHORT ADDRESS so far
+        self.pending = None         # address programmed and not yet verified
+        self.must_fail = False      # a verification was not answered YES: the sequence must raise
+        self.after_fail = 0         # commands yielded after that
+        self.popped = []
+        self.bad = []               # protocol violations seen
+        self.trace = []
+        self.prog_eq = True         # every programmed address is the one popped, every VERIFY names the programmed one
+
+    def _ans(self, kind):
+        if kind == 0:
+            return None
+        if kind == 1:
+            return 255
+        return ("garbled", 255)
+
+    def _arbitrary(self, hint):
+        return self._ans(self.ctx.choose_int(self.ctx.fresh_int(hint, 0, 2), hint))
+
+    def step(self, cmd):
+        t = type_of(cmd)
+        it = self.interp
+        self.trace.append(cmd)
+        if self.must_fail:
+            self.after_fail += 1
+        if self.pending is not None and t is not G.VerifyShortAddress:
+            self.bad.append("%s between PROGRAM and VERIFY SHORT ADDRESS" % t.__name__)
+        if t is G.QueryControlGearPresent:
+            d = cmd.destination
+            if not is_instance(d, A.GearShort):
+                self.bad.append("presence query to %s" % type_of(d).__name__)
+                return None
+            if it.test(d.address == self.K):
+                return self._ans(self.ctx.choose_int(self.inuse_kind, "K present"))
+            return self._arbitrary("present_other")
+        if t in (G.Terminate, G.Initialise, G.Randomise):
+            if t is G.Randomise:
+                self.u.redraw()
+            return None
+        if t is G.DTR0 or t is G.SetShortAddress:
+            self.writes += 1
+            return None
+        if t is G.ProgramShortAddress:
+            self.writes += 1
+            a = cmd.address
+            if not self.popped:
+                self.bad.append("an address is programmed that was not taken from the permitted list")
+            else:
+                self.prog_eq = And(self.prog_eq, a == self.popped[-1])
+            self.handed = self.handed + ite(a == self.K, 1, 0)
+            self.pending = a
+            return None
+        if t is G.VerifyShortAddress:
+            if self.pending is None:
+                self.bad.append("VERIFY SHORT ADDRESS does not follow PROGRAM SHORT ADDRESS")
+            else:
+                self.prog_eq = And(self.prog_eq, cmd.address == self.pending)
+            self.pending = None
+            k = self.ctx.choose_int(self.ctx.fresh_int("verify_answer", 0, 2), "verify answer")
+            if k == 0:
+                self.must_fail = True
+            return self._ans(k)
+        if t is G.Withdraw:
+            self.u.withdraw()
+            return None
+        self.bad.append("unexpected %s" % t.__name__)
+        return None
+
+
+def _search_redraw(self):
+    """RANDOMISE: the searching units draw new addresses - an arbitrary new abstract view"""
+    c = self.ctx
+    self.m = c.fresh_int("u_m", 0, INF)
+    self.clash = c.fresh_bool("u_clash")
+    self.m2 = c.fresh_int("u_m2", 0, INF)
+    c.assume(Or(self.m2 > self.m, And(self.m == INF, self.m2 == INF)))
+
+
+def _search_withdraw(self):
+    """WITHDRAW with the search address at the least random address m: those units leave, the next value is least"""
+    c = self.ctx
+    self.m = self.m2
+    self.clash = c.fresh_bool("u_clash")
+    self.m2 = c.fresh_int("u_m2", 0, INF)
+    c.assume(Or(self.m2 > self.m, And(self.m == INF, self.m2 == INF)))
+
+
+AbstractSearch.redraw = _search_redraw
+AbstractSearch.withdraw = _search_withdraw
+
+
+def commissioning_units():
+    out = []
+    st = {}
+
+    def member_k(lst):
+        bus = st["bus"]
+        if isinstance(lst, AddrList):
+            return lst.in_k
+        return Or([x == bus.K for x in lst]) if lst else False
+
+    def eligible():
+        """K may be handed out: it was permitted and - unless everything is readdressed - nobody answered for it"""
+        bus = st["bus"]
+        return And(st["orig_in"], Or(st["readdress"], bus.inuse_kind == 0))
+
+    def ghost_inv(avail):
+        """the clauses carried through every loop"""
+        bus = st["bus"]
+        in_k = member_k(avail)
+        return {
+            "K-handed-out-at-most-once": bus.handed + ite(in_k, 1, 0) <= 1,
+            "K-only-if-permitted": Implies(Or(in_k, bus.handed >= 1), st["orig_in"]),
+            "dry-run-writes-nothing": And(Implies(st["dry_run"], bus.writes == 0), Implies(st["dry_run"], bus.handed == 0)),
+            "no-protocol-violation": len(bus.bad) == 0,
+            "every-PROGRAM-verified": bus.pending is None,
+            "unconfirmed-verification-raises": not bus.must_fail,
+            "programs-the-address-taken-from-the-list-and-verifies-it": bus.prog_eq,
+        }
+
+    def havoc_ghost(lc, scanning=False):
+        ctx = lc.ctx
+        bus = st["bus"]
+        in_k = ctx.fresh_bool("in_list_K")
+        ne = ctx.fresh_bool("list_nonempty")
+        ctx.assume(Implies(in_k, ne))
+        lc.set("avail", AddrList(bus, in_k, ne))
+        bus.handed = ctx.fresh_int("handed", 0, 64)
+        bus.writes = ctx.fresh_int("writes", 0, 1 << 20)
+        bus.trace = []
+        bus.popped = []
+        bus.prog_eq = True
+
+    # ---- loop 0: which permitted addresses are in use (only when not readdressing)
+    def scan_inv(lc):
+        bus = st["bus"]
+        avail = lc.get("avail")
+        answered = bus.inuse_kind != 0
+        want = And(st["orig_in"], Not(And(bus.K < lc.k, answered)))
+        conds = {"K-in-list-iff-permitted-and-not-yet-found-in-use": member_k(avail) == want,
+                 "nothing-written": And(bus.handed == 0, bus.writes == 0), "no-protocol-violation": len(bus.bad) == 0}
+        if lc.phase == "keep":
+            conds["only-presence-queries"] = all(type_of(c) is G.QueryControlGearPresent for c in bus.trace) and len(bus.trace) <= 1
+        return conds
+
+    def scan_havoc(lc):
+        havoc_ghost(lc)
+        st["bus"].handed = 0
+        st["bus"].writes = 0
+
+    # ---- loop 1: rounds (restart after a clash)
+    def round_inv(lc):
+        bus = st["bus"]
+        avail = lc.get("avail")
+        conds = ghost_inv(avail)
+        conds["K-only-if-eligible"] = Implies(Or(member_k(avail), bus.handed >= 1), eligible())
+        if lc.phase == "init":
+            conds["prologue"] = prologue_ok()
+        if lc.phase == "keep":
+            conds["restart-after-clash-initialises-unaddressed-gear-only"] = restart_ok()
+        return conds
+
+    def restart_ok():
+        """what a round may leave on the wire after its last unit: nothing, or - after a clash, unless this is a dry
+        run - TERMINATE and INITIALISE restricted to gear WITHOUT a short address (gear already served stays out)"""
+        tr = st["bus"].trace
+        if not tr:
+            return True
+        if st["dry_c"] or len(tr) != 2 or type_of(tr[0]) is not G.Terminate or type_of(tr[1]) is not G.Initialise:
+            return False
+        return tr[1].broadcast is False and tr[1].address is None
+
+    def prologue_ok():
+        """what was sent before the first round"""
+        bus = st["bus"]
+        tr = [c for c in bus.trace]
+        if len(tr) < 2 or type_of(tr[-2]) is not G.Terminate or type_of(tr[-1]) is not G.Initialise:
+            return False
+        ini = tr[-1]
+        mode_ok = (ini.broadcast is True and ini.address is None) if st["readdress_c"] else \
+                  (ini.broadcast is False and ini.address is None)
+        head = tr[:-2]
+        if st["readdress_c"] and not st["dry_c"]:
+            head_ok = len(head) == 2 and type_of(head[0]) is G.DTR0 and type_of(head[1]) is G.SetShortAddress \
+                and is_instance(head[1].destination, A.GearBroadcast) and And(head[0].param == 255)
+        elif st["readdress_c"]:
+            head_ok = len(head) == 0
+        else:
+            head_ok = all(type_of(c) is G.QueryControlGearPresent for c in head)
+        return And(mode_ok, head_ok)
+
+    def round_havoc(lc):
+        havoc_ghost(lc)
+        lc.set("finished", lc.ctx.fresh_bool("finished"))
+
+    # ---- loop 2: one unit per iteration
+    def unit_inv(lc):
+        bus = st["bus"]
+        env, it = lc.env, lc.interp
+        avail = lc.get("avail")
+        low = lc.get("low")
+        fin = lc.get("finished")
+        conds = ghost_inv(avail)
+        conds["K-only-if-eligible"] = Implies(Or(member_k(avail), bus.handed >= 1), eligible())
+        if low is None:
+            conds["search-state"] = fin if isinstance(fin, (bool, sym.SBool)) else False
+        elif isinstance(low, str):
+            conds["search-state"] = False
+        else:
+            conds["search-state"] = And(low >= 0, low <= 0xFFFFFF, low <= bus.u.m)       # the search precondition
+        if lc.phase == "keep":
+            conds["found-unit-programmed-verified-withdrawn"] = iteration_shape_ok()
+        return conds
+
+    def iteration_shape_ok():
+        """commands of one iteration: [PROGRAM a, VERIFY a] (unless dry run / list exhausted), then WITHDRAW"""
+        bus = st["bus"]
+        names = [type_of(c).__name__ for c in bus.trace]
+        return names in (["Withdraw"], ["ProgramShortAddress", "VerifyShortAddress", "Withdraw"])
+
+    def unit_havoc(lc):
+        ctx = lc.ctx
+        havoc_ghost(lc)
+        bus = st["bus"]
+        bus.u.redraw()
+        if lc.phase == "exit":
+            lc.set("low", None)
+            lc.set("finished", True)
+        else:
+            lc.set("low", ctx.fresh_int("low", 0, 0xFFFFFF))
+            lc.set("finished", False)
+
+    def make(readdress, dry_run, given):
+        def runner(ctx, interp, fn):
+            if getattr(ctx, "native", False):
+                return      # loop-rule states are not executions; the bounded part replays whole runs natively
+            bus = CommBus(ctx, interp)
+            orig_in = ctx.bool("K_permitted") if given else True
+            ne = ctx.bool("permitted_nonempty")
+            ctx.assume(Implies(orig_in, ne))
+            st.clear()
+            st.update(bus=bus, orig_in=orig_in, readdress=readdress, dry_run=dry_run, readdress_c=readdress,
+                      dry_c=dry_run, scan_done=not readdress)
+            cur.clear()
+            cur["u"] = bus.u
+            avail = AddrList(bus, orig_in, ne) if given else None
+            h = Harness(ctx, interp, bus)
+            out = h.run(S.Commissioning, avail, readdress, dry_run)
+            ctx.cover()
+            if out[0] == "raise":
+                ok = issubclass(out[1], ProgramShortAddressFailure)
+                ctx.prove("only-ProgramShortAddressFailure-escapes", ok, detail="raised %s at %s" % (out[1].__name__, out[3]))
+                ctx.prove("failure-only-after-an-unconfirmed-verification", bus.must_fail is True and bus.after_fail == 0)
+                return
+            ctx.prove("unconfirmed-verification-raises", bus.must_fail is False)
+            tail = [type_of(c).__name__ for c in bus.trace[-1:]]
+            ctx.prove("ends-with-TERMINATE", tail == ["Terminate"], detail="last commands %r" % (tail,))
+            last_note = h.notes[-1] if h.notes else None
+            ctx.prove("then-reports-completion", last_note is not None and is_instance(last_note, SEQ.progress))
+            ctx.prove("K-handed-out-at-most-once-and-only-if-eligible",
+                      And(bus.handed <= 1, Implies(bus.handed >= 1, eligible())))
+            ctx.prove("dry-run-programs-nothing", Implies(dry_run, bus.writes == 0))
+            ctx.prove("no-protocol-violation", And(len(bus.bad) == 0, bus.prog_eq), detail=repr(bus.bad))
+        # loop-carried locals by what they hold at loop entry (their names are incidental); the list is a parameter
+        is_list = lambda v: isinstance(v, (list, AddrList))                                     # noqa: E731
+        r_avail = ("available_addresses", is_list)
+        r_fin = ("finished", lambda v: v is False)
+        r_low = ("low", lambda v: isinstance(v, int) and not isinstance(v, bool) and v == 0)
+        loops = {(COMM, 0): LoopSpec("scan-in-use", scan_inv, scan_havoc, roles={"avail": r_avail}),
+                 (COMM, 1): LoopSpec("rounds", round_inv, round_havoc, roles={"avail": r_avail, "finished": r_fin}),
+                 (COMM, 2): LoopSpec("units", unit_inv, unit_havoc,
+                                     roles={"avail": r_avail, "finished": r_fin, "low": r_low})}
+        name = "C07/commissioning/readdress=%s/dry_run=%s/%s" % (readdress, dry_run, "given-list" if given else "all-64")
+        out.append(Unit(name, "C07", None, None, use=USE + [FIND], width=72, kind="custom", runner=runner, loops=loops,
+                        max_paths=200000))
+    for readdress in (False, True):
+        for dry_run in (False, True):
+            for given in (True, False):
+                make(readdress, dry_run, given)
+    return out
+
+
 def extra_checks(tier, seed):
     import multiprocessing as mp
     t0 = time.time()
@@ -252,15 +618,23 @@ DEPENDENCIES = ['C04', 'C05']
 META = {
     "level": "proof",
     "bounds": {"_find_next": "all 0 <= low <= high < 2^24 and every population abstracted by (least address, shared?, next address)",
-               "Commissioning (BOUNDED, not proved)": "populations of 0..3 units, pre-existing short addresses {MASK,0,1}, permitted "
+               "Commissioning (proved, loop rule)": "any population and any answer stream (the bus answers every query "
+               "arbitrarily), any permitted list of pairwise distinct short addresses seen through one arbitrary address K, "
+               "all four combinations of readdress / dry_run, permitted list given or defaulted to all 64",
+               "Commissioning end state (BOUNDED, not proved)": "populations of 0..3 units, pre-existing short addresses {MASK,0,1}, permitted "
                "sets {all, (0,1,2), (1), (), (5,0)}, both readdress modes, dry run on/off, two arbitrary draws per unit over "
                "{0,7,0xFFFFFF} followed by a distinct value, faulty (non-storing) units"},
     "assumptions": [
         "ASSUMED unit contract contracts/units/addressing.py (abstract form for the proof, executable form for the bounded part)",
-        "the clauses about the whole Commissioning sequence (distinct / permitted addresses, non-participants untouched, dry "
-        "run, final TERMINATE, ProgramShortAddressFailure) are decided by BOUNDED exhaustive native execution only",
+        "ASSUMED contract of the Python list `available_addresses` restricted to one tracked element (AddrList: in / remove / "
+        "pop(0) / truth / list()) for a list of pairwise distinct ints 0..63 - the property's 'permitted set'",
+        "the command-level clauses of the whole sequence (K programmed at most once and only if eligible, PROGRAM/VERIFY "
+        "pairing, failure on an unconfirmed verification, dry run, WITHDRAW, prologue / restart / final TERMINATE) are proved "
+        "for every population; what the gear ends up holding (needs the gear's own semantics over a whole run) is decided by "
+        "BOUNDED exhaustive native execution only",
     ],
     "undecided_clauses": ["termination of the restart loop for arbitrary draw histories (fairness)",
-                          "Commissioning for populations larger than the bound"],
+                          "end state of the gear (distinct addresses actually stored, non-participants untouched) for populations "
+                          "larger than the bound"],
     "trusted_base": ["contracts/units/addressing.py", "pyvc/seq.py"],
 }
